@@ -74,6 +74,10 @@ def run(ctx):
             ctx.violation("whole_scan", [data], m)
 
 
+def scan_oracle(ctx, data, depth, tree, out):
+    return NO.walk(tree, NO.c15_node) if tree is not None else []
+
+
 def search(ctx):
     ctx.tier = "thorough"
     run(ctx)
